@@ -87,3 +87,44 @@ PROPS["C16"] = {"level": "fault_enumeration", "exhaustive": True,
     "level_note": "Trusted: the fault injector (harness/src/mon/netval.rs) really produces the fault it names and nothing else; serde_json/serde_yaml. Assumed: generator family of DESIGN.md section 3.",
     "floors": {"quick": {"distinct_nontrivial": 100, "obs.faults_injected": 20000, "obs.faults_rejected_with_error_value": 50000, "obs.legacy_layout_loads": 20, "obs.fault.coincident_switch_points": 20},
                "thorough": {"distinct_nontrivial": 4000, "obs.faults_injected": 1000000}}}
+
+TRAIN_NOTE = ("Trusted: harness reference evaluations (harness/src/mon/train.rs: stateless binary-search evaluation of the path's cumulative grade/curve functions, coefficient re-derivation from rail vehicles, reference posted-limit profile from mon/path.rs). "
+              "Assumed: generator family (DESIGN.md section 3): 2..8 gaps, links 30 m-6 km, |grade| <= 1.8 %, trains that fit on the route, consists sized for weight and grade; a run is accepted when builder and first extend_path return Ok.")
+PROPS.update({
+    "C03": {"level": "exploration", "owns_aborts": True,
+            "technique": "runtime monitor over SpeedLimitTrainSim histories (every saved step) with an independent posted-limit reference, panic capture (catch_unwind + hook, worker exit status), and a bounded-progress pre-flight (step budget) for 'the run ends'",
+            "level_text": "Every saved step of thousands of generated speed-limited runs under three extension schedules is checked (non-negative speed, speed <= posted limit at the front position, speed <= limit in force, target <= limit), the final stop window is checked on Ok, any panic is a violation and non-termination within 60 000 steps is reported; held on what was observed except for the listed known finding.",
+            "level_note": TRAIN_NOTE + " 'The run ends' is restated as bounded progress (60 000 steps, >= 3x the longest legitimate run in the family).",
+            "floors": {"quick": {"distinct_nontrivial": 40, "obs.slts_accepted": 150, "obs.rows": 100000, "obs.final_stop_checked": 100},
+                       "thorough": {"distinct_nontrivial": 2000, "obs.slts_accepted": 6000}}},
+    "C07": {"level": "exploration",
+            "technique": "runtime monitor with reference model: every saved row of set-speed and speed-limited runs vs force definitions evaluated statelessly (no cached indices) at the position/speed of the previous row; coefficients read from the serialized resistance model and re-derived from the rail vehicles",
+            "level_text": "Each force term, weight, front elevation and front/rear grade of every saved step is recomputed from definitions at front and rear positions; held on all observed steps.",
+            "level_note": TRAIN_NOTE + " Backward evaluation during braking-curve construction is exercised indirectly (speed-limited runs depend on it and C03's oracle watches the resulting curves); it is not compared call by call.",
+            "floors": {"quick": {"distinct_nontrivial": 100, "obs.rows": 100000, "obs.rows_front_rear_in_different_grade_pieces": 20000},
+                       "thorough": {"distinct_nontrivial": 5000, "obs.rows": 5000000}}},
+    "C11": {"level": "exploration",
+            "technique": "runtime monitor: row-aligned comparison of train.history, loco_con.history and every loco history plus final totals and (annualised) getters",
+            "level_text": "Power and cumulative energies are compared across train, consist and unit level in every saved row, and trip-level getters against totals x the documented factor for simulation_days in {None,1,7,365}; held on all observed runs.",
+            "level_note": TRAIN_NOTE + " Final totals are compared only for runs that ended Ok (a step that fails half-way legitimately leaves unit sums ahead of the consist).",
+            "floors": {"quick": {"distinct_nontrivial": 40, "obs.rows": 100000, "obs.annualised_getters": 50, "obs.final_totals": 200},
+                       "thorough": {"distinct_nontrivial": 2000, "obs.rows": 5000000}}},
+    "C12": {"level": "exploration",
+            "technique": "runtime monitor: kinematic identities and path mapping on every saved TrainState row (time step, trapezoid position update, rear position alignment, total distance, front segment + in-segment offset against PathTpc link points)",
+            "level_text": "Each saved step of generated set-speed and speed-limited runs over routes with 30 m - 6 km links is checked; held on all observed steps.",
+            "level_note": TRAIN_NOTE + " The rear position is accepted in either of two alignments (front[k]-L or front[k-1]-L) provided one alignment is used through the run (the code evaluates the rear when forces are computed).",
+            "floors": {"quick": {"distinct_nontrivial": 100, "obs.rows": 100000, "obs.steps_crossing_1_boundary": 500},
+                       "thorough": {"distinct_nontrivial": 5000, "obs.rows": 5000000}}},
+    "C14": {"level": "exploration",
+            "technique": "runtime monitor: SetSpeedTrainSim history vs its SpeedTrace (bitwise time/speed), inertia/resistance power identities, clip values checked against limits published in the consist history, shadow energy sum with trace dt; negative-speed traces must be rejected",
+            "level_text": "Every row of generated set-speed runs (irregular stamps, saturating and non-saturating accelerations) is checked; 15 % of traces carry a negative speed at a random index and must end with Err; held on all observed runs.",
+            "level_note": TRAIN_NOTE + " The rate-limited clip bound is accepted with either the previous or the current step size (the code uses the previous one).",
+            "floors": {"quick": {"distinct_nontrivial": 100, "obs.rows": 100000, "obs.clipped_steps": 5000, "obs.unclipped_steps": 20000, "obs.negative_speed_traces": 40},
+                       "thorough": {"distinct_nontrivial": 5000, "obs.rows": 5000000}}},
+    "C19": {"level": "exploration",
+            "technique": "runtime monitor: generic walker over the object tree collecting (len, i column, state.i, save_interval) of every history after runs of all four simulation kinds, all intervals, runs ending with an error",
+            "level_text": "After each generated run the whole tree of histories is checked for equal lengths, same step per row, equal counters, the expected row count and interval propagation; held on all observed runs.",
+            "level_note": TRAIN_NOTE,
+            "floors": {"quick": {"distinct_nontrivial": 50, "obs.trees_checked": 1000, "obs.histories_checked": 10000, "obs.loco_sim_ended_with_err": 50, "obs.consist_sim_ended_with_err": 50},
+                       "thorough": {"distinct_nontrivial": 2000, "obs.trees_checked": 40000}}},
+})
